@@ -87,14 +87,10 @@ def genRes {β : Type} (v : Option (List β)) (ok : Bool) : Option (Option (Arra
 def genRun {β : Type} (ops : Ops Nat β) (fn : String) (x : Array β) : Option (Option (Option (Array β))) :=
   let l := x.toList
   match fn with
-  | "ntt" =>
-    -- the regenerated part of `ntt` is `ntt_unchecked`; the wrapper (length checks, root lookup) is the hand model's
-    if 2^32 ≤ x.size || !(x.size == 0 || TF.isPow2 x.size) then none else
-    match bRoot x.size with
-    | none => none
-    | some omega =>
-      let log := if x.size == 0 then 0 else Nat.log2 x.size
-      some (genRes (TF.Gen.Loops.ntt_unchecked ops l omega log) (TF.Gen.Loops.ntt_unchecked_ok ops l omega log))
+  -- the wrappers are regenerated, too (length check, `assert!`, `checked_ilog2`, root look-up, call of `ntt_unchecked`, scaling)
+  | "ntt" => some (genRes (TF.Gen.Loops.ntt_ntt ops bRoot l) (TF.Gen.Loops.ntt_ntt_ok ops bRoot l))
+  | "intt" => some (genRes (TF.Gen.Loops.ntt_intt ops bRoot l) (TF.Gen.Loops.ntt_intt_ok ops bRoot l))
+  | "ntt_noswap" => some (genRes (TF.Gen.Loops.ntt_noswap ops bRoot l) (TF.Gen.Loops.ntt_noswap_ok ops bRoot l))
   | "intt_noswap" => some (genRes (TF.Gen.Loops.intt_noswap ops bRoot l) (TF.Gen.Loops.intt_noswap_ok ops bRoot l))
   | "bitrev" => some (genRes (TF.Gen.Loops.ntt_bitreverse_order ops l) (TF.Gen.Loops.ntt_bitreverse_order_ok ops l))
   | _ => none
@@ -102,6 +98,7 @@ def genRun {β : Type} (ops : Ops Nat β) (fn : String) (x : Array β) : Option 
 def genAgrees {β : Type} [BEq β] (ops : Ops Nat β) (fn : String) (x : Array β) (model : Option (Array β)) : Bool :=
   -- the regenerated definitions work on `List`s (`getD`/`set` are linear): side by side up to 512 elements
   if x.size > 512 then true else
+  -- rejected lengths: the model panics before it looks at the vector; evaluate the regenerated wrapper all the same
   match genRun ops fn x with
   | none => true
   | some none => false          -- out of fuel
@@ -126,7 +123,10 @@ def ntt : Handler
   | fn, [.sym "b", xs] => do
       let l ← xs.natList?
       let r ← runB fn (l.map (· % P)).toArray
-      pure (if genAgrees bOps fn (l.map (· % P)).toArray r then okB r else "GEN-MISMATCH " ++ fn ++ " model=" ++ okB r)
+      -- `unscale` exists for `BFieldElement` slices only (the regenerated definition is over the scalar type)
+      let un := fn != "unscale" || l.length > 512 ||
+        (if TF.Gen.Loops.ntt_unscale_ok bOps (l.map (· % P)) then some (TF.Gen.Loops.ntt_unscale bOps (l.map (· % P))).toArray else none) == r
+      pure (if genAgrees bOps fn (l.map (· % P)).toArray r && un then okB r else "GEN-MISMATCH " ++ fn ++ " model=" ++ okB r)
   | fn, [.sym "x", xs] => do
       let l ← xs.tripleList?
       let r ← runX fn l.toArray
